@@ -3,56 +3,8 @@
 import concurrent.futures as cf
 from .qread_common import *
 
-L_ONLYA = '{{"A"}}'
-# one entry per clause family: every graph within the bounds (nodes added in non-decreasing order = up to handle symmetry)
-# is crossed with every query of the family.  name = trace / script file name.
-QUICK = [
-    dict(name="scanL", fam="scanL", maxn=2, labels=ALL4, p="none"),
-    dict(name="scanW1", fam="scanW1", maxn=2, labels=L_ONLYA, p="mixed"),
-    dict(name="scanW2", fam="scanW2", maxn=2, labels=L_NONE, p="num", q="one"),
-    dict(name="scanI", fam="scanI", maxn=2, labels=L_ONLYA, p="mixed"),
-    dict(name="hopD", fam="hopD", maxn=2, maxr=2, labels=L_NONE, p="none", types=T1),
-    dict(name="hopD2", fam="hopD", maxn=2, maxr=1, labels=L_NONE, p="none", types=T2),
-    dict(name="hopP", fam="hopP", maxn=2, maxr=1, labels=L_A, p="one", r="one"),
-    dict(name="agg", fam="agg", maxn=2, labels=L_NONE, p="num", q="one"),
-    dict(name="aggM", fam="agg", maxn=2, labels=L_NONE, p="mixed"),
-    dict(name="sum", fam="sum", maxn=2, labels=L_A, p="num", q="one"),
-    dict(name="aggHop", fam="aggHop", maxn=2, maxr=2, labels=L_NONE, p="none"),
-    dict(name="opt", fam="opt", maxn=2, maxr=1, labels=L_A, p="one"),
-    dict(name="ord", fam="ord", maxn=2, labels=L_NONE, p="mixed"),
-    dict(name="ord2", fam="ord2", maxn=2, maxr=1, labels=L_NONE, p="two", q="one"),
-    dict(name="with", fam="with", maxn=2, labels=L_A, p="num"),
-    dict(name="withHop", fam="withHop", maxn=2, maxr=1, labels=L_A, p="one"),
-    dict(name="unwind", fam="unwind", maxn=1, labels=L_A, p="num"),
-    dict(name="union", fam="union", maxn=2, labels=L_A, p="num"),
-    dict(name="var", fam="var", maxn=2, maxr=2, labels=L_NONE, p="none"),
-    dict(name="short", fam="short", maxn=2, maxr=2, labels=L_NONE, p="none"),
-]
-# thorough: the value sets / multi-edges that the quick tier trims, and three-node graphs for the pattern families
-THOROUGH = [
-    dict(name="scanL", fam="scanL", maxn=2, labels=ALL4, p="one"),
-    dict(name="scanW1", fam="scanW1", maxn=2, labels=L_A, p="mixed"),
-    dict(name="scanW2", fam="scanW2", maxn=2, labels=L_NONE, p="mixed", q="one"),
-    dict(name="scanI", fam="scanI", maxn=2, labels=L_A, p="mixed"),
-    dict(name="hopD", fam="hopD", maxn=2, maxr=2, labels=L_NONE, p="none", types=T2),
-    dict(name="hopD3", fam="hopD", maxn=3, maxr=2, labels=L_NONE, p="none", types=T1),
-    dict(name="hopP", fam="hopP", maxn=2, maxr=2, labels=L_A, p="one", r="one"),
-    dict(name="agg", fam="agg", maxn=2, labels=L_NONE, p="mixed", q="one"),
-    dict(name="agg3", fam="agg", maxn=3, labels=L_NONE, p="num"),
-    dict(name="sum", fam="sum", maxn=2, labels=L_A, p="num", q="one"),
-    dict(name="aggHop", fam="aggHop", maxn=2, maxr=2, labels=L_NONE, p="none", r="one"),
-    dict(name="opt", fam="opt", maxn=2, maxr=2, labels=L_A, p="one", r="one"),
-    dict(name="ord", fam="ord", maxn=2, labels=L_A, p="mixed"),
-    dict(name="ord3", fam="ord", maxn=3, labels=L_NONE, p="num"),
-    dict(name="ord2", fam="ord2", maxn=2, maxr=1, labels=L_NONE, p="num", q="one"),
-    dict(name="with", fam="with", maxn=2, labels=L_A, p="mixed"),
-    dict(name="withHop", fam="withHop", maxn=2, maxr=2, labels=L_A, p="one"),
-    dict(name="unwind", fam="unwind", maxn=1, labels=L_A, p="mixed"),
-    dict(name="union", fam="union", maxn=2, labels=L_A, p="num", q="one"),
-    dict(name="var", fam="var", maxn=2, maxr=2, labels=L_A, p="none"),
-    dict(name="var3", fam="var", maxn=3, maxr=3, labels=L_NONE, p="none"),
-    dict(name="short", fam="short", maxn=3, maxr=3, labels=L_NONE, p="none"),
-]
+# The per-family graph bounds live in MC_CypherRead.tla (QuickTable / ThoroughTable): one TLC run enumerates, for every clause
+# family, every graph within that family's bounds (up to handle symmetry) x every query of the family.
 # random walks: bigger graphs (3 nodes, 3-4 relationships, all label sets) x composed queries / every family
 WALKS = [
     dict(name="walkMix", fam="mix", maxn=3, maxr=3, labels=ALL4, p="num", r="one", types=T2, canon=False, maxh=9, askat=5, quick=400, thorough=12000),
@@ -60,35 +12,30 @@ WALKS = [
 ]
 
 
-SELFTEST = ("scanW1", "hopD", "agg", "ord", "walkMix")   # binding self-test (one corrupted outcome must be rejected) on these
-
-
-def families(ctx, which):
+def generate(ctx, per=3, extra=None, hist=False):
+    """GEN: the table run + the random walks (three TLC processes); returns the batched scripts as [{sid, steps}]"""
     only = os.environ.get("VERIF_CYR_FAMS")
-    fams = QUICK if ctx.quick else THOROUGH
-    return [f for f in fams if not only or f["name"] in only.split(",")]
-
-
-def generate(ctx, which, per=3, extra=None):
-    """all GEN runs (three TLC processes at a time); returns [(name, batched scripts)]"""
-    jobs = []
-    for f in families(ctx, which):
-        kw = {k: v for k, v in f.items() if k != "name"}
-        jobs.append((f["name"], gen_cfg(inv="NoLaw", **kw), None))
-    only = os.environ.get("VERIF_CYR_FAMS")
+    jobs = [("table", gen_cfg(tier="quick" if ctx.quick else "thorough", inv="NoLaw"), None, 6)]
     for w in WALKS:
-        if only and w["name"] not in only.split(","):
-            continue
         kw = {k: v for k, v in w.items() if k not in ("name", "quick", "thorough")}
-        jobs.append((w["name"], gen_cfg(sim=True, view="", emit="", inv="SimEmit", **kw), (w["quick"] if ctx.quick else w["thorough"], w["maxh"] + 2)))
+        jobs.append((w["name"], gen_cfg(sim=True, view="", emit="", inv="SimEmit", **kw),
+                     (w["quick"] if ctx.quick else w["thorough"], w["maxh"] + 2), 2))
 
     def one(job):
-        name, cfg, sim = job
-        return name, ctx.tlc_gen("MC_CypherRead", cfg, "gen-" + name, workers=2, timeout=3000, simulate=sim)
+        name, cfg, sim, workers = job
+        return name, ctx.tlc_gen("MC_CypherRead", cfg, "gen-" + name, workers=workers, timeout=3000, simulate=sim)
 
     with cf.ThreadPoolExecutor(max_workers=3) as ex:
         res = list(ex.map(one, jobs))
-    return [(name, batch(scripts, per=per, extra=extra)) for name, scripts in res]
+    out, count = [], {}
+    for name, scripts in res:
+        for st in batch(scripts, per=per, extra=extra):
+            fam = name if name != "table" else st[-1].get("fam", name)
+            if only and fam not in only.split(","):
+                continue
+            count[fam] = count.get(fam, 0) + 1
+            out.append({"sid": "%s-%d" % (fam, count[fam]), "steps": st})
+    return out
 
 
 def design_checks(ctx):
@@ -115,17 +62,15 @@ ASSUME = (
 
 def run(ctx):
     design_checks(ctx)
-    total = generate(ctx, "c01")
+    scripts = generate(ctx)
     ctx.assume(*ASSUME)
+    sp = ctx.write_scripts("reads", scripts, wrap=False)
+    tr = ctx.run_harness("cyread", sp, name="reads", args=["mode=c01"])
+    n, ok, err = count_cases(tr)
     stats = {}
-    for name, scripts in total:
-        sp = ctx.write_scripts(name, scripts)
-        tr = ctx.run_harness("cyread", sp, name=name, args=["mode=c01"])
-        n, ok, err = count_cases(tr)
-        shape_stats(tr, stats)
-        ctx.log("%s: %d cases, %d answered, %d refused" % (name, n, ok, err))
-        ctx.validate("CypherRead_Trace", trace_cfg(ctx), tr, name=name, corrupt=corrupt_outcome("out"), jobs=int(os.environ.get("VERIF_JOBS", "6")),
-                     selftest=name in SELFTEST)
+    shape_stats(tr, stats)
+    ctx.log("%d cases, %d answered, %d refused, %d query shapes" % (n, ok, err, len(stats)))
+    ctx.validate("CypherRead_Trace", trace_cfg(ctx), tr, name="reads", corrupt=corrupt_outcome("out"), jobs=int(os.environ.get("VERIF_JOBS", "6")))
     ctx.cov["query_shapes"] = len(stats)
     ctx.cov["query_shapes_refused"] = sorted(k for k, v in stats.items() if v[1] > 0)[:40]
     record_shapes(ctx, stats)
